@@ -7,10 +7,11 @@ EXTENDS RpcSerializeOps
 
 CONSTANTS Msgs,        \* set of messages (schema instances) in scope
           MaxParts,    \* input is cut into 1..MaxParts iovec elements, at every cut position (empty elements included)
+          MaxPartsH,   \* the same for the hostile / altered modes
           MaxDev,      \* hostile mode: at most MaxDev wire words deviate from what an honest sender writes
           Modes        \* subset of {"honest", "hostile", "hostileSL", "altered", "short"}
-VARIABLES msg, part, mode, W, SL, alt, st, pc, body, dev
-vars == <<msg, part, mode, W, SL, alt, st, pc, body, dev>>
+VARIABLES msg, part, mode, W, SL, alt, st, pc, body, dev, ord
+vars == <<msg, part, mode, W, SL, alt, st, pc, body, dev, ord>>
 
 Partitions(N, P) ==
   {<<N>>} \cup (IF P >= 2 THEN {<<c, N - c>> : c \in 0..N} ELSE {})
@@ -29,25 +30,33 @@ HostileSLs(sl, B) ==
   {[sl EXCEPT ![e] = <<o, n, sl[e][3], sl[e][4]>>] : e \in 1..Len(sl), o \in OffVals(B), n \in LenVals(B)}
   \cup {[sl EXCEPT ![e] = <<sl[e][1], sl[e][2], o, n>>] : e \in 1..Len(sl), o \in OffVals(B), n \in LenVals(B)}
 
-Start(m, p, md, sl, a) ==
-  LET b == BackCont(PartEls(p), m.S) IN
-  /\ msg = m /\ part = p /\ mode = md /\ SL = sl /\ alt = a /\ W = HonestW(m) /\ dev = 0
-  /\ body = R(b.where, b.pos, m.S)
-  /\ st = IF b.ok THEN InitSt(m, b.els) ELSE [InitSt(m, <<>>) EXCEPT !.failed = TRUE]
-  /\ pc = IF ~b.ok \/ (m.ck /\ a >= 0 /\ Covered(b.els, b.pos, m.S, a)) THEN 0 ELSE 1   \* 0: refused before any field
+Start(p, md, sl, a) ==
+  LET m == msg  b == BackCont(PartEls(p), m.S) IN
+  /\ part' = p /\ mode' = md /\ SL' = sl /\ alt' = a /\ W' = HonestW(m) /\ dev' = 0 /\ ord' = Order(m)
+  /\ body' = R(b.where, b.pos, m.S)
+  /\ st' = IF b.ok THEN InitSt(m, b.els) ELSE [InitSt(m, <<>>) EXCEPT !.failed = TRUE]
+  /\ pc' = IF ~b.ok \/ (m.ck /\ a >= 0 /\ Covered(b.els, b.pos, m.S, a)) THEN 0 ELSE 1   \* 0: refused before any field
+  /\ UNCHANGED msg
 
+\* initial states: one per message; the first step picks mode, partition, hostile slices, altered byte
+\* (kept out of Init so that TLC's workers share the enumeration)
 MCInit ==
-  \E m \in Msgs : \E md \in Modes :
-     IF md = "short" THEN \E n \in {0, m.S - 1} : \E p \in Partitions(n, 2) : Start(m, p, md, HonestSL(m), -1)
-     ELSE \E p \in Partitions(FlatLen(m), MaxParts) :
-        IF md = "altered" THEN \E a \in 0..(FlatLen(m) - 1) : Start(m, p, md, HonestSL(m), a)
-        ELSE IF md = "hostileSL" THEN (HasMap(m) /\ \E sl \in HostileSLs(HonestSL(m), HonestW(m)[MapIdx(m) + 1]) : Start(m, p, md, sl, -1))
-        ELSE Start(m, p, md, HonestSL(m), -1)
+  /\ msg \in Msgs
+  /\ pc = -2 /\ part = <<>> /\ mode = "" /\ SL = <<>> /\ alt = -1 /\ W = <<>> /\ dev = 0 /\ ord = <<>>
+  /\ body = Unset /\ st = InitStN(0, <<>>)
+Setup ==
+  /\ pc = -2
+  /\ \E md \in Modes :
+     IF md = "short" THEN \E n \in {0, msg.S - 1} : \E p \in Partitions(n, 2) : Start(p, md, HonestSL(msg), -1)
+     ELSE \E p \in Partitions(FlatLen(msg), IF md = "honest" THEN MaxParts ELSE MaxPartsH) :
+        IF md = "altered" THEN msg.ck /\ \E a \in 0..(FlatLen(msg) - 1) : Start(p, md, HonestSL(msg), a)
+        ELSE IF md = "hostileSL"
+        THEN (HasMap(msg) /\ \E sl \in HostileSLs(HonestSL(msg), HonestW(msg)[MapIdx(msg) + 1]) : Start(p, md, sl, -1))
+        ELSE Start(p, md, HonestSL(msg), -1)
 
-Ord == Order(msg)
 StepField ==
-  /\ pc \in 1..Len(Ord)
-  /\ LET L == Ord[pc]  rem == SumEls(st.els) IN
+  /\ pc \in 1..Len(ord)
+  /\ LET L == ord[pc]  rem == SumEls(st.els) IN
      \E w \in (IF mode \in {"hostile", "hostileSL"} /\ dev < MaxDev /\ (mode = "hostile" \/ L.k \in {"idx", "base"})
                THEN HostileVals(rem, L.n) ELSE {L.n}) :
         /\ Allowed(L, w, rem)
@@ -55,13 +64,13 @@ StepField ==
         /\ dev' = IF w = L.n THEN dev ELSE dev + 1
         /\ st' = StepLeaf(st, L, W')
   /\ pc' = pc + 1
-  /\ UNCHANGED <<msg, part, mode, SL, alt, body>>
+  /\ UNCHANGED <<msg, part, mode, SL, alt, body, ord>>
 StepFinish ==
-  /\ pc = Len(Ord) + 1
+  /\ pc = Len(ord) + 1
   /\ st' = Finish(msg, st, W, SL)
   /\ pc' = -1
-  /\ UNCHANGED <<msg, part, mode, W, SL, alt, body, dev>>
-MCNext == StepField \/ StepFinish
+  /\ UNCHANGED <<msg, part, mode, W, SL, alt, body, dev, ord>>
+MCNext == Setup \/ StepField \/ StepFinish
 MCSpec == MCInit /\ [][MCNext]_vars
 
 Done == pc \in {0, -1}
@@ -74,8 +83,8 @@ ChecksumRejects  == (Done /\ mode = "altered" /\ msg.ck) => D.out = "fail"
 \* no step ever crashes, whatever the words
 NoCrash          == ~st.crashed
 \* step machine = functional version (the functional version judges recorded executions of the real code)
-FuncAgree        == Done => D = Deserialize(msg, W, SL, part, alt)
+FuncAgree        == Done => D = Deser(msg, W, SL, part, alt)
 \* the flat serialization is a bijection onto byte ids (so "same position" and "same bytes" coincide)
-IdsInjective     == pc = 1 => (Len(FlatIds(msg)) = FlatLen(msg)
-                              /\ \A i, j \in 1..FlatLen(msg) : i # j => FlatIds(msg)[i] # FlatIds(msg)[j])
+IdsInjective     == (pc = 1 /\ mode = "honest") =>
+                      LET ids == FlatIds(msg) IN Len(ids) = FlatLen(msg) /\ Cardinality({ids[i] : i \in 1..Len(ids)}) = Len(ids)
 =============================================================================
